@@ -1,8 +1,75 @@
+import PyGam.Model.Dists
 import PyGam.Drv.Common
 namespace PyGam.Drv.C06
 open PyGam PyGam.Drv
 
-/-- operations of the C06 model driver (`C06 <op> <args…>`); `none` ↦ `bad-op` -/
+def parseFam? : String → Option Family
+  | "normal" => some .normal
+  | "binomial" => some .binomial
+  | "poisson" => some .poisson
+  | "gamma" => some .gamma
+  | "inv_gauss" => some .invGauss
+  | _ => none
+
+def parseBool? : String → Option Bool
+  | "1" => some true
+  | "0" => some false
+  | _ => none
+
+/-- `none` ↦ `some none`, `b…` ↦ `some (some x)` -/
+def parseOptFloat? (s : String) : Option (Option Float) :=
+  if s == "none" then some none else (parseFloat? s).map some
+
+def showCall : SamplerCall Float → String
+  | .normal a b => s!"normal {showFloat a} {showFloat b}"
+  | .binomial a b => s!"binomial {showFloat a} {showFloat b}"
+  | .poisson a => s!"poisson {showFloat a}"
+  | .gamma a b => s!"gamma {showFloat a} {showFloat b}"
+  | .wald a b => s!"wald {showFloat a} {showFloat b}"
+
+/-- operations of the C06 model driver (`C06 <op> <args…>`); `none` ↦ `bad-op`.
+All numbers are IEEE doubles as bit patterns.
+* `V fam levels w mu`                         → `varFnW`
+* `dev fam levels scale scaled w y mu`        → `deviance`
+* `kern fam levels scale w y mu`              → `logKernel … y y`, `logKernel … y mu`
+* `all fam levels scale w y mu`               → `varFnW`, `deviance` unscaled, scaled, `logKernel` at `y`, at `mu`
+* `phi fam levels known n edof w… y… mu…`     → `phi`
+* `sampler fam scale levels mu`               → the sampler call and its documented `(mean, variance)` / `TypeError` -/
 def handle : List String → Option String
+  | ["V", fam, levels, w, mu] => do
+      let fam ← parseFam? fam; let levels ← parseFloat? levels; let w ← parseFloat? w; let mu ← parseFloat? mu
+      some (showFloat (varFnW fam levels w mu))
+  | ["dev", fam, levels, scale, scaled, w, y, mu] => do
+      let fam ← parseFam? fam; let levels ← parseFloat? levels; let scale ← parseFloat? scale
+      let scaled ← parseBool? scaled
+      let w ← parseFloat? w; let y ← parseFloat? y; let mu ← parseFloat? mu
+      some (showFloat (deviance fam levels scale scaled w y mu))
+  | ["kern", fam, levels, scale, w, y, mu] => do
+      let fam ← parseFam? fam; let levels ← parseFloat? levels; let scale ← parseFloat? scale
+      let w ← parseFloat? w; let y ← parseFloat? y; let mu ← parseFloat? mu
+      some (showFloatList [logKernel fam levels scale w y y, logKernel fam levels scale w y mu])
+  | ["all", fam, levels, scale, w, y, mu] => do
+      let fam ← parseFam? fam; let levels ← parseFloat? levels; let scale ← parseFloat? scale
+      let w ← parseFloat? w; let y ← parseFloat? y; let mu ← parseFloat? mu
+      some (showFloatList [varFnW fam levels w mu,
+        deviance fam levels scale false w y mu, deviance fam levels scale true w y mu,
+        logKernel fam levels scale w y y, logKernel fam levels scale w y mu])
+  | "phi" :: fam :: levels :: known :: n :: edof :: rest => do
+      let fam ← parseFam? fam; let levels ← parseFloat? levels; let known ← parseOptFloat? known
+      let n ← n.toNat?; let edof ← parseFloat? edof
+      let xs ← parseFloats? rest
+      if xs.length ≠ 3 * n then none else
+      let w := listToVec (xs.take n)
+      let y := listToVec ((xs.drop n).take n)
+      let mu := listToVec (xs.drop (2 * n))
+      some (showFloat (phi known fam levels n edof w y mu))
+  | ["sampler", fam, scale, levels, mu] => do
+      let fam ← parseFam? fam; let scale ← parseOptFloat? scale
+      let levels ← parseFloat? levels; let mu ← parseFloat? mu
+      match samplerParams fam scale levels mu with
+      | none => some "TypeError"
+      | some c =>
+          let m := moments c
+          some (showCall c ++ " | " ++ showFloatList [m.1, m.2])
   | _ => none
 end PyGam.Drv.C06
